@@ -82,3 +82,64 @@ Example C16_encoder_from_source_example :
   srun go_client_cobsEncode [[1; 0; 2; 3]%Z] = Some [2; 1; 3; 2; 3; 0]%Z /\
   srun go_client_cobsEncode [[]] = Some [1; 0]%Z.
 Proof. split; vm_compute; reflexivity. Qed.
+
+From Coq Require Import String.
+(* ---------- the decoder from the source ----------
+   client.cobsDecodeInplace as the translator printed it from client/cobs-wrapper.go on this run (Anchors/Generated.v: a
+   three-clause loop, `continue` printed as if / else, early returns, an (int, error) result, the frame rewritten in
+   place) evaluates, under MiniGo/Slice.v's semantics, to the model's [decode_inplace] for every non-empty buffer of bytes:
+   the same error, the same length, and the decoded bytes at the start of the buffer.  (For the empty buffer the
+   evaluator does not tell nil from empty; CobsWrapper.Read never passes one.)
+   Proofs: Anchors/TieCobsDec.v (an iteration of the printed loop is Cobs/DecLoop.v's dstep, on each of its seven paths)
+   and Cobs/DecLoop.v (the loop is the model's decoder: the output index never passes the input index). *)
+From Verif Require Import Cobs.EncLoop Anchors.TieCobsDec.
+From Coq Require Import Lia.
+Theorem C16_decoder_from_source : forall b : list N, b <> [] -> Forall (fun x => (x < 256)%N) b -> buf_len_ok b ->
+  exists r, srun_inplace go_client_cobsDecodeInplace [map Z.of_N b] = Some r /\ agrees (decode_inplace b) r.
+Proof. exact go_cobsDecodeInplace_is_model. Qed.
+Print Assumptions C16_decoder_from_source.
+
+(* with C16_cobs_roundtrip and C16_encoder_from_source: what the printed encoder emits, the printed decoder turns back
+   into the frame -- a statement about the two source-derived functions alone *)
+Theorem C16_printed_codec_roundtrip : forall f : list N, f <> [] -> Forall (fun b => (b < 256)%N) f ->
+  (Z.of_nat (List.length f) < 2 ^ 58)%Z ->
+  exists e n B, srun go_client_cobsEncode [map Z.of_N f] = Some e /\
+                srun_inplace go_client_cobsDecodeInplace [e] = Some (n, ""%string, B) /\
+                n = Z.of_nat (List.length f) /\ firstn (List.length f) B = map Z.of_N f.
+Proof.
+  intros f Hnf Hok Hlen.
+  assert (Hfl : frame_len_ok f) by (unfold frame_len_ok; lia).
+  pose proof (go_cobsEncode_is_model f Hok Hfl) as HE.
+  pose proof (encode_bytes f Hok) as Hbytes.
+  assert (Hne : encode f <> []) by (unfold encode; intros Hc; apply app_eq_nil in Hc; destruct Hc; discriminate).
+  assert (Hbl : buf_len_ok (encode f)).
+  { unfold buf_len_ok. pose proof (encode_len_bound f Hok) as Hl. lia. }
+  destruct (go_cobsDecodeInplace_is_model (encode f) Hne Hbytes Hbl) as [[[n e] B] [HD HA]].
+  exists (map Z.of_N (encode f)), n, B. unfold agrees in HA. unfold encode in HA at 1.
+  rewrite (decode_inplace_encode f Hnf Hok) in HA. destruct HA as [He [Hn HB]]. subst e.
+  repeat split; assumption.
+Qed.
+Print Assumptions C16_printed_codec_roundtrip.
+
+(* non-vacuity: the printed decoder evaluated on a dozen buffers gives what the model gives *)
+Definition dec_model_res (b : list N) : option (Z * list Z) :=
+  match decode_inplace b with
+  | RFrame p => Some (Z.of_nat (List.length p), map Z.of_N p)
+  | RErr e => Some (Z.opp (Z.of_N e), [])
+  end.
+Definition dec_printed_res (b : list N) : option (Z * list Z) :=
+  match srun_inplace go_client_cobsDecodeInplace [map Z.of_N b] with
+  | Some (n, ""%string, l) => Some (n, firstn (Z.to_nat n) l)
+  | Some (_, "ErrCobsDecodeError"%string, _) => Some ((-1)%Z, [])
+  | Some (_, _, _) => Some ((-3)%Z, [])
+  | None => None
+  end.
+Definition dec_samples : list (list N) :=
+  [[0;2;1;3;2;3;0]; [2;1;3;2;3;0]; [1;0;0]; [3;1;0;4;0]; [0;0;0]; [5;1;2;3;4;0;9]; [2;1]; [0;0;2;7;1;1;0;5];
+   encode (repeat 7 254 ++ [0;5]); encode (repeat 9 600); [3;1;2;2;0]; [255;1;0]]%N.
+Example C16_decoder_printed_agrees_on_samples :
+  forallb (fun b => match dec_model_res b, dec_printed_res b with
+                    | Some (n1, l1), Some (n2, l2) => Z.eqb n1 n2 && (if list_eq_dec Z.eq_dec l1 l2 then true else false)
+                    | _, _ => false
+                    end) dec_samples = true.
+Proof. vm_compute. reflexivity. Qed.
